@@ -164,7 +164,7 @@ def trace_part(chk, S, n_examples):
                                   (1, 10), (1, 100), (99, 100)]))
         f2 = draw(st.sampled_from([(1, 1), (9, 10), (3, 4), (1, 2)]))
         above = draw(st.sampled_from([0, 0, 1]))        # 1: the fraction is a hair (1e-9) ABOVE fn/fd
-        sigma = draw(st.sampled_from([0.0, 0.0, 0.5, 1.0, 2.0, 5.0, 10.0]))      # 0: no smoothing, many exact density ties
+        sigma = draw(st.sampled_from([0.0, 0.0, 0.5, 1.0, 2.0, 5.0, 10.0, (0.0, 2.0), (1.5, 0.0), (0.8, 2.0), [0.0, 1.0]]))      # 0: no smoothing, many exact density ties
         scale = draw(st.sampled_from(['linear', 'log', 'logicle']))
         return dict(kind=kind, N=N, seed=seed, kx=kx, ky=ky, binspec=binspec, f=f, f2=f2, sigma=sigma, scale=scale, above=above)
 
